@@ -931,6 +931,13 @@ func (c *client) establishRegion(reg hrpc.RegionInfo, addr string) {
 			reg.MarkAvailable()
 			return
 		}
+		select {
+		case <-c.done:
+			// client has been closed while we were sleeping,
+			// don't look up anything anymore
+			return
+		default:
+		}
 		if addr == "" {
 			// need to look up region and address of the regionserver
 			originalReg := reg
